@@ -38,27 +38,32 @@ def gen_x(shape, cplx, rng):
     return torch.from_numpy(a.astype(np.float32))
 
 
-def check_exact(ctx, cell, case):
+def check_exact(ctx, cell, case, chan=None, chk=None, rc=None):
     import torch
+    chk = chk or CHK
+    rc = rc or case
     ftype, param, T, cplx, shape = case["ftype"], case.get("param"), case["T"], case["complex"], tuple(case["shape"])
     cell = cell or {"fading": ftype, "dtype": "complex" if cplx else "real", "layout": f"{len(shape)}d"}
     rng = np.random.RandomState(case.get("seed", ctx.seed))
     x = gen_x(shape, cplx, rng)
-    ok, ch = ctx.call(lambda: make(ftype, T, param, "power", 0.0), "C13.construct", cell, case, checker=CHK)
-    if not ok:
-        return
+    if chan is not None:
+        ch = chan
+    else:
+        ok, ch = ctx.call(lambda: make(ftype, T, param, "power", 0.0), "C13.construct", cell, rc, checker=chk)
+        if not ok:
+            return
     torch.manual_seed(case.get("seed", ctx.seed) + 5)
     x_before = x.clone()
-    ok, y = ctx.call(lambda: ch(x), "C13.raises", cell, case, checker=CHK)
+    ok, y = ctx.call(lambda: ch(x), "C13.raises", cell, rc, checker=chk)
     if not ok:
         return
     ctx.ev()
-    ctx.check(bool(torch.equal(x, x_before)), "C13.input_unmodified", cell, case, None, None, "channel modified its input tensor", CHK)
+    ctx.check(bool(torch.equal(x, x_before)), "C13.input_unmodified", cell, rc, None, None, "channel modified its input tensor", chk)
     B = shape[0] if len(shape) > 1 else 1
     L = int(np.prod(shape[1:])) if len(shape) > 1 else shape[0]
     if (L % T) or (ftype == "rician" and (param or 0) > 0) or len(shape) > 2:
         ctx.nontrivial(cell, T, shape, param)
-    if not ctx.check(tuple(y.shape) == shape and y.is_complex(), "C13.c_shape", cell, case, [list(y.shape), str(y.dtype)], [list(shape), "complex"], "output shape differs from the input shape", CHK):
+    if not ctx.check(tuple(y.shape) == shape and y.is_complex(), "C13.c_shape", cell, rc, [list(y.shape), str(y.dtype)], [list(shape), "complex"], "output shape differs from the input shape", chk):
         return
     g = (y.reshape(B, L) / x.reshape(B, L).to(y.dtype)).numpy().astype(np.complex128)
     nblocks = -(-L // T)
@@ -71,14 +76,14 @@ def check_exact(ctx, cell, case):
                 break
         if bad:
             break
-    ctx.check(bad is None, "C13.b_block_constant", cell, case, {"item": bad[0], "block": bad[1]} if bad else None, "gain constant within each coherence block",
-              "fading gain changes inside a coherence block", CHK)
+    ctx.check(bad is None, "C13.b_block_constant", cell, rc, {"item": bad[0], "block": bad[1]} if bad else None, "gain constant within each coherence block",
+              "fading gain changes inside a coherence block", chk)
     if bad is None and nblocks >= 2 and ftype != "lognormal" or (bad is None and nblocks >= 2):
         firsts = g[:, ::T][:, :nblocks]
         distinct = min(len(set(np.round(row, 9))) for row in firsts)
-        ctx.check(distinct == nblocks, "C13.b_blocks_independent_draws", cell, case, distinct, nblocks, "fewer distinct gains per item than ceil(L/T): blocks share a coefficient", CHK)
+        ctx.check(distinct == nblocks, "C13.b_blocks_independent_draws", cell, rc, distinct, nblocks, "fewer distinct gains per item than ceil(L/T): blocks share a coefficient", chk)
         if B >= 2:
-            ctx.check(not np.allclose(firsts[0], firsts[1]), "C13.b_items_independent_draws", cell, case, None, None, "two batch items received the same gains", CHK)
+            ctx.check(not np.allclose(firsts[0], firsts[1]), "C13.b_items_independent_draws", cell, rc, None, None, "two batch items received the same gains", chk)
     # (a) supplied csi and noise: exactly h.x + n
     if len(shape) <= 2:
         xs = x.reshape(B, L)
@@ -89,16 +94,30 @@ def check_exact(ctx, cell, case):
             xin = x if len(shape) == 2 else x
             hh = hv if len(shape) == 2 or hv.dim() == 0 else (hv[0] if vname == "full" else hv.reshape(-1)[:1])
             nn = n if len(shape) == 2 else n[0]
-            ok, yy = ctx.call(lambda: make(ftype, T, param, "snr", 10.0)(xin, csi=hh, noise=nn), "C13.a_supplied_raises", {**cell, "csi": vname}, {**case, "csi": vname}, checker=CHK)
+            ok, yy = ctx.call(lambda: make(ftype, T, param, "snr", 10.0)(xin, csi=hh, noise=nn), "C13.a_supplied_raises", {**cell, "csi": vname}, {**rc, "csi": vname}, checker=chk)
             if not ok:
                 continue
             exp = hh * xin.to(torch.complex64) + nn
             ctx.ev()
-            ctx.check(tuple(yy.shape) == shape and torch.allclose(yy, exp, rtol=1e-6, atol=1e-6), "C13.a_supplied_csi_noise", {**cell, "csi": vname}, {**case, "csi": vname},
-                      float((yy - exp).abs().max()) if tuple(yy.shape) == tuple(exp.shape) else list(yy.shape), 0.0, "with supplied channel state and noise the output is not h.x + n", CHK)
+            ctx.check(tuple(yy.shape) == shape and torch.allclose(yy, exp, rtol=1e-6, atol=1e-6), "C13.a_supplied_csi_noise", {**cell, "csi": vname}, {**rc, "csi": vname},
+                      float((yy - exp).abs().max()) if tuple(yy.shape) == tuple(exp.shape) else list(yy.shape), 0.0, "with supplied channel state and noise the output is not h.x + n", chk)
     ctx.cls("exact_" + ftype)
     if len(ctx.samples) < 2:
         ctx.sample({"cell": cell, "T": T, "shape": list(shape), "blocks_per_item": nblocks})
+
+
+def check_reuse(ctx, cell, case):
+    """One fading-channel object used for several inputs of different shape and dtype: every call must obey the block-fading law for ITS input
+    (block constancy, fresh draws per block and item, output shape).  case: {ftype, param, T, steps: [{complex, shape, seed}, ...]}"""
+    ftype, param, T = case["ftype"], case.get("param"), case["T"]
+    ok, ch = ctx.call(lambda: make(ftype, T, param, "power", 0.0), "C13.construct", {"fading": ftype, "mode": "object_reuse"}, case, checker="c13:check_reuse")
+    if not ok:
+        return
+    for i, stp in enumerate(case["steps"]):
+        shape = stp["shape"]
+        cl = {"fading": ftype, "dtype": "complex" if stp["complex"] else "real", "layout": f"{len(shape)}d", "mode": "object_reuse"}
+        check_exact(ctx, cl, {"ftype": ftype, "param": param, "T": T, "complex": stp["complex"], "shape": shape, "seed": stp["seed"]}, chan=ch, chk="c13:check_reuse", rc={**case, "failing_step": i})
+    ctx.cls("reuse_histories")
 
 
 def unit_exact(ctx, ftype, params, n_gen):
@@ -114,6 +133,10 @@ def unit_exact(ctx, ftype, params, n_gen):
             shape = [B, 2, max(1, L // 4), 2]
         check_exact(ctx, None, {"ftype": ftype, "param": param, "T": T, "complex": cplx, "shape": shape, "seed": sd})
     draw_cases(strat, n_gen, ctx.seed * 41 + len(ftype), f)
+    # one object, several inputs
+    stp = st.fixed_dictionaries({"complex": st.booleans(), "shape": st.one_of(st.tuples(st.integers(1, 40)), st.tuples(st.integers(1, 4), st.integers(1, 40))).map(list), "seed": st.integers(0, 10 ** 6)})
+    hs = st.fixed_dictionaries({"T": st.integers(1, 12), "param": st.sampled_from(params), "steps": st.lists(stp, min_size=2, max_size=4)})
+    draw_cases(hs, max(20, n_gen // 10), ctx.seed * 43 + len(ftype), lambda h: check_reuse(ctx, None, {"ftype": ftype, **h}))
     # planted: T = L, T > L, T = 1, non-divisor
     for T, L in ((7, 7), (9, 4), (1, 12), (5, 12), (4, 12)):
         for cplx in (False, True):
